@@ -46,36 +46,28 @@ def range_cases(rng, tier):
     import framework
     t = statelib.load_index(C.GEN)['tables']
     out = []
-    nsample = 30000 if tier == 'quick' else 300000
-    per_class = 2 if tier == 'quick' else 30
+    import wordpool
     corners = [0, 1, 2, 0x7FFFFFFF, 0x80000000, 0x80000001, 0xFFFFFFFF, 0xFFFFFFFE, 0xFFFF0000, 0x0000FFFF, 0x10000, 0x8000, 0xFFFFFFF8]
-    for module, gen, kind in (('arm_instruction_set', stepgen.random_arm_word, 'arm'),
-                              ('thumb_instruction_set_encoding_32_bit', stepgen.random_thumb32, 't32')):
-        words = [gen(rng) for _ in range(nsample)]
-        codes = framework.run_impl([{'kind': 'classify', 'module': module, 'words': words}], 'c10_classify_' + kind)[0]
-        byclass = {}
-        for w, c in zip(words, codes):
-            if c >= 0 and len(byclass.setdefault(c, [])) < per_class:
-                byclass[c].append(w)
-        for c, ws in sorted(byclass.items()):
-            for w in ws:
-                if kind == 'arm' and (w >> 28) != 0xF:
-                    w = (w & 0x0FFFFFFF) | 0xE0000000
-                for fill in (0xFFFFFFFF, 0x80000000, 0x7FFFFFFF, None, None, None):
-                    st = stepgen.random_state(rng, t, thumb=(kind != 'arm'), mpu=False)
-                    for i in range(33):
-                        r = rng.random()
-                        if fill is not None:
-                            st['R'][i] = fill
-                        elif r < 0.5:
-                            st['R'][i] = rng.choice(corners)
-                        elif r < 0.7:
-                            st['R'][i] = 0x1000 + 8 * rng.randrange(0, 24)
-                    if kind == 't32':
-                        st['_thumb32'] = True
-                    stepgen.put_instr(st, w, 32)
-                    out.append({'impl': {'kind': 'step_range', 'state': stepgen.clean(st)}, 'model': None, 'spec': '[0]',
-                                'label': 'range_' + kind, 'nontrivial': True})
+    for kind, w, c in wordpool.pool(rng, per_class=2 if tier == 'quick' else 30):
+        if kind == 't16':
+            continue
+        if kind == 'arm' and (w >> 28) != 0xF:
+            w = (w & 0x0FFFFFFF) | 0xE0000000
+        for fill in (0xFFFFFFFF, 0x80000000, 0x7FFFFFFF, None, None, None):
+            st = stepgen.random_state(rng, t, thumb=(kind != 'arm'), mpu=False)
+            for i in range(33):
+                r = rng.random()
+                if fill is not None:
+                    st['R'][i] = fill
+                elif r < 0.5:
+                    st['R'][i] = rng.choice(corners)
+                elif r < 0.7:
+                    st['R'][i] = 0x1000 + 8 * rng.randrange(0, 24)
+            if kind == 't32':
+                st['_thumb32'] = True
+            stepgen.put_instr(st, w, 32)
+            out.append({'impl': {'kind': 'step_range', 'state': stepgen.clean(st)}, 'model': None, 'spec': '[0]',
+                        'label': 'range_' + kind, 'nontrivial': True})
     for _ in range(300 if tier == 'quick' else 30000):
         st = stepgen.random_state(rng, t, thumb=True, mpu=False)
         for i in range(33):
